@@ -47,12 +47,15 @@ type Run struct {
 	Viol      *Violation
 
 	seamPanic bool
-	signers   map[string]cose.Signer // long-lived Signer objects of this run (world.go)
-	mapPerms  int                    // non-identity permutations handed to map ranges of go-cose (instrumented builds)
-	shape     []string
-	sched     []uint64 // schedule hashes of the concurrent blocks of this run
-	trace     []string // rendered operations (kept short)
-	Logged    *strings.Builder
+	// RecycledSigCap > 0: LibIssue hands go-cose message objects whose signature
+	// slots are empty slices with that much capacity (world.go)
+	RecycledSigCap int
+	signers        map[string]cose.Signer // long-lived Signer objects of this run (world.go)
+	mapPerms       int                    // non-identity permutations handed to map ranges of go-cose (instrumented builds)
+	shape          []string
+	sched          []uint64 // schedule hashes of the concurrent blocks of this run
+	trace          []string // rendered operations (kept short)
+	Logged         *strings.Builder
 }
 
 // NewRun prepares a run.
